@@ -320,6 +320,33 @@ def fam_clone(cfg, tier, rng):
             out.append(pre + ["clone 0 1", "clone 1 2", "dropvec 0", "dropvec 1", "dropvec 2"])
     return out
 
+def fam_clone_in(cfg, tier, rng):
+    """C08 (also C11, C18): clone_empty_in for every backend pair (source = the case's backend, target = each backend the
+    harness instantiates) from every small state: the clone is held in the caller's frame, takes k fresh values (up to one
+    beyond a fixed target capacity), is read back, cloned (Cloneable constraint sets), popped and dropped; with and
+    without a panicking Clone / destructor inside; then the source is used again."""
+    L = 2 if tier == "quick" else 4
+    targets = ["reloc:2", "empty"]
+    if not cfg.get("noalloc"):
+        targets.insert(0, "heap")
+    if cfg["al"] <= 8:          # over-aligned elements on the inline stack buffers: known finding D7
+        targets += ["stack:512", "stackn:3:512"]
+    out = []
+    for n in range(0, max_len(cfg, L) + 1):
+        pre = prefix(cfg, [n])
+        for t in targets:
+            if not build_ok(t, cfg["sz"]):
+                ks = [0]
+            else:
+                tcap = fixed_cap(t, cfg["sz"])
+                ks = list(range(0, min(4, (tcap + 1) if tcap is not None else 4) + 1))
+            for k in ks:
+                out.append(pre + ["clone_in 0 %s %d" % (t, k)] + usable_after(cfg, [0]))
+                if cfg["dg"] and k > 0:
+                    for j in range(0, min(2 * k + 2, 5)):
+                        out.append(pre + ["fuse=%d clone_in 0 %s %d" % (j, t, k)] + usable_after(cfg, [0]))
+    return out
+
 def fam_random(cfg, tier, rng):
     """Long random histories on large vectors (mostly valid operations plus a malformed
     stream: bad index, bad range).  Lengths are tracked here only to aim the indices."""
@@ -847,5 +874,6 @@ FAMILIES = {
     "capacity": fam_capacity,
     "views": fam_views,
     "clone": fam_clone,
+    "clone_in": fam_clone_in,
     "random": fam_random,
 }
